@@ -140,6 +140,50 @@ theorem filterMapM_ok_mem {α β : Type} {f : α → Except Err (Option β)} :
             · obtain ⟨z, hz, hfz⟩ := filterMapM_ok_mem hr y hy
               exact ⟨z, by simp [hz], hfz⟩
 
+theorem mapM_congr' {α β : Type} {f g : α → Except Err β} : ∀ {l : List α},
+    (∀ x ∈ l, f x = g x) → l.mapM f = l.mapM g
+  | [], _ => by simp
+  | x :: xs, h => by
+      simp only [List.mapM_cons]
+      rw [h x (by simp), mapM_congr' (fun y hy => h y (by simp [hy]))]
+
+/-- two lists related element by element -/
+inductive Pointwise {α β : Type} (R : α → β → Prop) : List α → List β → Prop
+  | nil : Pointwise R [] []
+  | cons {x y xs ys} : R x y → Pointwise R xs ys → Pointwise R (x :: xs) (y :: ys)
+
+theorem mapM_ok_forall₂ {α β : Type} {f : α → Except Err β} : ∀ {l : List α} {r : List β},
+    l.mapM f = .ok r → Pointwise (fun x y => f x = .ok y) l r
+  | [], r, h => by
+      simp at h
+      cases h
+      exact .nil
+  | x :: xs, r, h => by
+      simp only [List.mapM_cons] at h
+      cases hx : f x with
+      | error e => rw [hx] at h; cases h
+      | ok y =>
+        rw [hx] at h
+        simp only [ok_bind] at h
+        cases hr : xs.mapM f with
+        | error e => rw [hr] at h; cases h
+        | ok ys =>
+          rw [hr] at h
+          have : r = y :: ys := by cases h; rfl
+          subst this
+          exact .cons hx (mapM_ok_forall₂ hr)
+
+theorem D.get?_of_has (d : D) (k : Key) (h : d.has k = true) : ∃ v, d.get? k = some v := by
+  unfold D.has at h
+  unfold D.get?
+  rw [List.any_eq_true] at h
+  obtain ⟨p, hp, hk⟩ := h
+  cases hf : d.find? (fun p => p.1 = k) with
+  | some q => exact ⟨q.2, rfl⟩
+  | none =>
+    rw [List.find?_eq_none] at hf
+    exact absurd hk (hf p hp)
+
 theorem Agree.tolerant {s P P'} (h : Agree s P P') (a : Args) : P' (a.restrict s) = P' a := by
   rw [← h, ← h, Args.restrict_restrict]
 
